@@ -48,6 +48,10 @@ def request_pool(rng, policy):
         ("invalid", b"BAD" + CRLF + CRLF),
         ("invalid", req(headers=[])),                      # 1.1 without Host
         ("invalid", req(b"POST", headers=[HOST, (b"Content-Length", b"x")])),
+        # HEAD requests that the library itself rejects: its error response, too, answers a HEAD request
+        ("invalid", req(b"HEAD", b"/h", headers=[])),                                         # 1.1 without Host: 400
+        ("invalid", req(b"HEAD", b"/h", headers=[HOST, (b"Content-Length", b"99999999999")])),  # 413
+        ("invalid", req(b"HEAD", b"/h", headers=[HOST, (b"Content-Length", b"-1")])),          # 400
         ("toolong", req(b"ABCDEFGHIJ", headers=[HOST])),
         ("trace", req(b"TRACE", b"/t", headers=[HOST])),
     ]
